@@ -8,7 +8,7 @@ from ..cfg import NORMAL, Node, handler_classes
 from ..core import Ctx
 from ..flow import ALL, find_path, names_in
 from ..model import AnalysisError, FunctionInfo, dotted, norm_text
-from .common import effective_compare, edge_target, handler_exits, handler_nodes, in_handler, kwarg, reachable_from
+from .common import effective_compare, facts_at, edge_target, handler_exits, handler_nodes, in_handler, kwarg, reachable_from
 
 EXPLANATION = (
     "Static analysis of file_lock.py / lock_provider.py: (R1) every exclusive flock / msvcrt.locking attempt carries the "
@@ -29,6 +29,26 @@ def check(ctx: Ctx) -> None:
     r3(ctx, "C19.R3")
     r4(ctx)
     r5(ctx)
+    kernel_lock_preferred(ctx, "C19.R6")
+
+
+def kernel_lock_preferred(ctx: Ctx, rid: str) -> None:
+    """Shared with C03: a writer that dies holding a kernel lock releases it; the O_EXCL existence lock does not."""
+    ctx.rule(rid, "the O_CREAT|O_EXCL existence lock (not released when its holder dies) is used only where no kernel lock "
+             "primitive exists: the fallback is reached only when FCNTL_AVAILABLE and MSVCRT_AVAILABLE are both false", 1)
+    f = ctx.fn("file_lock.FileLock._try_acquire_once")
+    g = ctx.cfg(f)
+    fb = [n for n in g.calls() if any(t.name == "_try_acquire_excl_fallback" for t in ctx.eff.callees(f, n))]
+    excl = [n for n in ctx.calls(f, prim="os.open") if isinstance(n.ast, ast.Call) and len(n.ast.args) > 1 and "O_EXCL" in norm_text(n.ast.args[1])]
+    sites = fb + excl
+    if not sites:
+        ctx.ob(rid, f, "no existence-lock fallback", None, True, "only kernel locks are used", nontrivial=False)
+    for n in sites:
+        known_false = {e.id for pol, e, _at in facts_at(ctx, f, n) if pol == "false" and isinstance(e, ast.Name)}
+        ok = {"FCNTL_AVAILABLE", "MSVCRT_AVAILABLE"} <= known_false
+        ctx.ob(rid, f, "existence-lock fallback only without fcntl AND msvcrt", n, ok,
+               f"flags known false on arrival: {sorted(known_false)}; with a kernel primitive available the lock of a dead "
+               "writer is released by the OS, with the existence lock every commit times out until the stale-break threshold")
 
 
 def lock_functions(ctx: Ctx) -> List[FunctionInfo]:
@@ -98,7 +118,12 @@ def r2(ctx: Ctx) -> None:
     for q in ("file_lock.FileLock.acquire", "lock_provider.S3LockProviderBase.acquire"):
         f = ctx.fn(q)
         g = ctx.cfg(f)
-        heads = [n for n in g.nodes if n.kind == "loop_head"]
+        # the loop(s) around the acquisition attempt - `while` or a counted `for` (a count of attempts is not a deadline)
+        attempts = [n for n in g.calls() if any(t.name.startswith("_try_acquire") for t in ctx.eff.callees(f, n))]
+        loop_asts = {id(fr.node) for a in attempts for fr in a.frames if fr.kind == "loop"}
+        heads = [n for n in g.nodes if n.kind in ("loop_head", "loop") and n.ast is not None and id(n.ast) in loop_asts]
+        if not heads:
+            heads = [n for n in g.nodes if n.kind == "loop_head"]
         if not heads:
             raise AnalysisError(f"acquire loop vanished from {q}")
         dl = _deadline_branches(ctx, f)
